@@ -88,18 +88,22 @@ def facts_for_repo(repo=REPO, want_harness=False, quiet=False):
         target = tempfile.mkdtemp(prefix='rivia-facts-target-')
         try:
             if want_harness:
-                shutil.copy(os.path.join(repo, 'Cargo.lock'), os.path.join(HARNESS, 'Cargo.lock'))
-                # the harness path-depends on the repo; only the workspace member (harness) is wrapped, so run
-                # the repo first, then the harness, sharing the target dir for the dependencies
                 p = _run_driver(repo, 'rivia', tmp_out, target)
                 if p.returncode != 0 or not os.path.exists(os.path.join(tmp_out, 'rivia.json')):
                     sys.stdout.write(p.stdout)
                     raise SystemExit('EXTRACTION FAILED: /repo does not type-check under the extractor')
-                env_repo = os.environ.get('VERIF_HARNESS_REPO')
-                p = _run_driver(HARNESS, 'rivia_macro_harness', tmp_out, os.path.join(target, 'h'))
+                # the harness path-depends on the analysed repo: build a scratch copy of the harness crate pointing at it
+                hdir = os.path.join(target, 'harness-crate')
+                os.makedirs(os.path.join(hdir, 'src'))
+                shutil.copy(os.path.join(HARNESS, 'src', 'lib.rs'), os.path.join(hdir, 'src', 'lib.rs'))
+                with open(os.path.join(hdir, 'Cargo.toml'), 'w') as f:
+                    f.write('[package]\nname = "rivia_macro_harness"\nversion = "0.0.0"\nedition = "2021"\n\n[lib]\npath = "src/lib.rs"\n\n'
+                            '[dependencies]\nrivia = { path = "%s" }\n\n[workspace]\n' % os.path.abspath(repo))
+                shutil.copy(os.path.join(repo, 'Cargo.lock'), os.path.join(hdir, 'Cargo.lock'))
+                p = _run_driver(hdir, 'rivia_macro_harness', tmp_out, os.path.join(target, 'h'))
                 if p.returncode != 0 or not os.path.exists(os.path.join(tmp_out, 'rivia_macro_harness.json')):
                     sys.stdout.write(p.stdout)
-                    raise SystemExit('EXTRACTION FAILED: harness/macros does not type-check against /repo')
+                    raise SystemExit('EXTRACTION FAILED: harness/macros does not type-check against the analysed tree')
             else:
                 p = _run_driver(repo, 'rivia', tmp_out, target)
                 if p.returncode != 0 or not os.path.exists(os.path.join(tmp_out, 'rivia.json')):
